@@ -7,19 +7,20 @@ PROPS = {
   'C01': {'families': [('chess', 400, 24000)]},
   'C02': {'families': [('chess', 400, 24000)]},
   'C03': {'families': [('chess', 400, 24000)]},
-  'C09': {'families': [('chess', 400, 24000)]},
+  'C09': {'families': [('chess', 400, 24000), ('hashdiff', 300, 30000)]},
   'C10': {'families': [('chess', 400, 24000)]},
-  'C11': {'families': [('chess', 300, 12000)]},
+  'C11': {'families': [('chess', 300, 12000), ('fenfuzz', 6000, 1000000)]},
   'C12': {'families': [('attacks', 3000, 200000), ('chess', 200, 8000)]},
   'C17': {'families': [('chess', 400, 24000)]},
   'C04': {'families': [('search', 120, 6000)]},
-  'C05': {'families': [('search', 120, 6000)]},
+  'C05': {'families': [('search', 120, 6000), ('time', 3000, 300000), ('timed', 40, 1500), ('dialog', 60, 2000), ('conc', 60, 3000)]},
   'C13': {'families': [('search', 120, 6000)]},
-  'C07': {'families': [('go', 4000, 400000)]},
+  'C06': {'families': [('conc', 150, 8000), ('dialog', 100, 4000)]},
+  'C07': {'families': [('go', 4000, 400000), ('dialog', 150, 6000)]},
   'C08': {'families': [('time', 5000, 1000000)]},
   'C14': {'families': [('tt', 3000, 300000)]},
   'C15': {'families': [('eval', 3000, 300000)]},
-  'C16': {'families': [('evalc', 1000, 60000), ('eval', 500, 20000)]},
+  'C16': {'families': [('evalc', 1000, 60000), ('eval', 500, 20000), ('ecache', 2000, 200000)]},
   'C18': {'families': [('see', 1500, 100000)]},
   'C19': {'families': [('order', 1500, 100000)]},
 }
